@@ -209,7 +209,8 @@ def opUse (shape : String) : String :=
 
 /-- `N` | `X` | `T,dt,dims` | `U:v;v;…` -/
 def parseValueU (s : String) : Value :=
-  if s.startsWith "U:" then
+  -- (`U:` an exact tuple, `L:` a list, `S:` an instance of a tuple subclass: the same sequence of values to the checker)
+  if s.startsWith "U:" || s.startsWith "L:" || s.startsWith "S:" then
     let body := (s.drop 2).toString
     .tup ((splitSemi body).map parseValue)
   else parseValue s
